@@ -128,7 +128,7 @@ def execute(acc, case):
             sc.inject(stream, chunks=chunks, settle=case.get("settle", True))
             done = lambda: len(delivered) >= len(expected_app) and len([c for c in sc.consumed if c[0] == "Open"]) >= len(kinds)
             t_last_byte = sc.sched.now
-            ok = sc.sched.run_until(done, 3.0, "delivery")
+            ok = sc.sched.run_until(done, 3.0 + 0.01 * len(kinds), "delivery")
             sc.sched.run_until(lambda: False, 0.01, "grace")     # a little longer: duplicates would show up now
             acc.counters["executions"] += 1
             if sc.sched.parked_at and case.get("park_worker"):
@@ -263,6 +263,10 @@ def plan(tier, seed):
             for seg in (["per-message"] if q else ["per-message", "header-internal", "whole"]):
                 cases.append({"seed": seed * 37 + k, "n": 5, "seg": seg, "strategy": "rw", "p": 0.02, "role": ("client", "server")[k % 2],
                               "settle": False, "park_worker": [who, k]})
+    for i in range(3 if q else 60):
+        # long backlogs: hundreds of messages coalesced into one or a few reads, far more than the state machine takes per tick
+        cases.append({"seed": seed * 983 + i, "n": rng.choice([150, 300, 600]), "seg": rng.choice(["whole", "whole", "random"]), "strategy": rng.choice(["rr", "rw"]),
+                      "p": 0.02, "role": rng.choice(["client", "server"]), "settle": False, "max_steps": 3_000_000})
     for i in range(2 if q else 40):
         cases.append({"seed": seed * 977 + i, "n": 4, "big": True, "seg": rng.choice(["whole", "random"]), "strategy": "rr",
                       "role": "client", "recv_cap": rng.choice([None, 65536])})
